@@ -12,7 +12,8 @@ PID = 'C06'
 LEVEL = 'exploration'
 RULE = ('complete enumeration of the program structure space: 13 types x 2 byte orders x 9 shapes (1-D..4-D, with length-1 '
         'axes and pairwise distinct extents) x 12 languages x 3 path modes (relative, basepath, abspath) = 8424 programs, '
-        'each against an array of random pairwise distinct values (thorough: 3 value fillings and 6 more shapes); plus '
+        'each against an array of random pairwise distinct values (thorough: 3 value fillings and 6 more shapes); plus, for a third of the cases, code requested from a long-lived handle after the array was '
+        'changed through a second handle or by path; plus '
         'empty arrays for the "running the code changes nothing" clause. Python-family code is executed; foreign code is '
         'parsed by a strict per-language template and evaluated by a reference interpreter with its own token tables. '
         'Every offered program is non-trivial; distinct by (type, byte order, shape, language, path mode)')
@@ -26,9 +27,9 @@ ANCHORS = ['readcodearray:readcode', 'readcodearray:readcodenumpy', 'readcodearr
            'readcodearray:readcodematlab_complex', 'readcodearray:readcodescilab', 'readcodearray:readcodescilab_complex',
            'readcodearray:readcodejulia0', 'readcodearray:readcodejulia1', 'readcodearray:readcodeidl',
            'readcodearray:readcodemathematica', 'readcodearray:readcodemaple', 'array:Array.readcode']
-REQUIRED = ['mon.offer_table', 'mon.executed_python_family', 'mon.interpreted_foreign', 'mon.path_token',
+REQUIRED = ['mon.stale_handle', 'mon.offer_table', 'mon.executed_python_family', 'mon.interpreted_foreign', 'mon.path_token',
             'mon.tree_unchanged', 'mon.readcodelanguages']
-MIN_NONTRIVIAL = {'quick': 5000, 'thorough': 20000}
+MIN_NONTRIVIAL = {'quick': 5000, 'thorough': 10000}
 
 SHAPES = [(5,), (1,), (2, 3), (3, 1), (1, 4), (2, 3, 4), (3, 1, 2), (2, 3, 4, 5), (2, 1, 3, 1)]
 MORE_SHAPES = [(7,), (4, 2), (1, 1), (5, 2, 3), (1, 2, 1), (3, 2, 1, 4)]
@@ -121,6 +122,32 @@ def run_case(case, env):
                 check_python_family(res, D, lang, code, path, cwd, token, stored, case)
             else:
                 check_foreign(res, lang, code, resolve, token, stored, case)
+        # ---- the stored array is changed through ANOTHER handle; code from the first (long-lived)
+        #      handle must still denote what is stored now
+        if mode == 'relative' and not case.get('empty') and not res.fails and case['fill'] == 0:
+            b = D.Array(path, accessmode='r+')
+            if shape[0] > 1 and (len(shape) + shape[0]) % 2:
+                D.truncate_array(str(path), shape[0] - 1)
+                stored2 = stored[:shape[0] - 1].copy()
+                how = 'truncate by path'
+            else:
+                b.append(stored[:1])
+                stored2 = np.concatenate([stored, stored[:1]], axis=0).astype(dtype)
+                how = 'append through a second handle'
+            res.count('mon.stale_handle')
+            for lang in langsem.ARRAY_LANGS:
+                code = a.readcode(lang)
+                if code is None:
+                    continue
+                n0 = len(res.fails)
+                if lang in ('numpy', 'numpymemmap', 'python', 'darr'):
+                    check_python_family(res, D, lang, code, path, cwd, token, stored2, case)
+                else:
+                    check_foreign(res, lang, code, resolve, token, stored2, case)
+                for f in res.fails[n0:]:
+                    f['mech'] = 'stale-handle:' + f['mech']
+                    f['msg'] = f'after {how}, readcode() of the first handle: ' + f['msg']
+                sigs.add((nt, bo, shape, lang, 'after-external-change'))
         res.sig = {repr(s) for s in sigs}
         res.nontrivial = bool(sigs)
         res.evals = max(1, len(sigs))
